@@ -31,7 +31,6 @@ theorem remove_exact [NumOps α] (rows : List (Row α)) (vals : List α) (h : va
     simp only [dropMask, List.zip_map_right, List.filter_map, List.map_map]
     rfl
   · simp [countTrue, dropMask, List.countP_map]
-    rfl
 
 /-- the call on the object: refused on an empty table, otherwise as above (without panel) -/
 theorem remove_call [NumOps α] (db : DB α) (f : Fm α) (hne : db.t.rows.isEmpty = false)
@@ -73,9 +72,8 @@ theorem addcol_values [NumOps α] (t : Table α) (name : String) (f : Fm α)
 theorem scale_one_column [NumOps α] (t : Table α) (j : Nat) (s : α) :
     (t.scaleCol j s).cols = t.cols ∧ (t.scaleCol j s).labels = t.labels ∧
     (∀ i, i ≠ j → (t.scaleCol j s).column i = t.column i) ∧
-    (∀ r ∈ t.rows, j < r.2.length → True) ∧
     (t.scaleCol j s).rows.map (fun r => r.2[j]?) = t.rows.map (fun r => r.2[j]?.map (NumOps.mul · s)) := by
-  refine ⟨rfl, by simp [Table.scaleCol, Table.labels, List.map_map, Function.comp_def], ?_, fun _ _ _ => trivial, ?_⟩
+  refine ⟨rfl, by simp [Table.scaleCol, Table.labels, List.map_map, Function.comp_def], ?_, ?_⟩
   · intro i hi
     simp only [Table.column, Table.scaleCol, List.map_map]
     apply List.map_congr_left
@@ -222,7 +220,7 @@ theorem fresh_inv [NumOps α] (t : Table α) (hw : ∀ r ∈ t.rows, r.2.length 
 /-! ## witnesses and non-vacuity (on the integers) -/
 
 /-- numbers = integers, for the examples -/
-def intOps : NumOps Int where
+@[instance_reducible] def intOps : NumOps Int where
   add := (· + ·)
   sub := (· - ·)
   mul := (· * ·)
@@ -244,7 +242,9 @@ def intOps : NumOps Int where
 
 attribute [local instance] intOps
 
-theorem intEqOK : EqOK Int := fun a b => by simp [Num.eq, intOps]
+theorem intEqOK : EqOK Int := fun a b => by
+  show decide (a = b) = true ↔ a = b
+  simp
 
 /-- **With duplicate labels the code as it is deletes too much** (known finding): the rows
 carry the labels 0,1,0,1 (`pd.concat` of two frames) and x = 1,2,2,1; removing `x == 2`
